@@ -63,7 +63,8 @@ def F(ctx, h, cell, name, spec, symmulti, disper=None):
         atoms = make_atoms(ctx.S, spec, symmulti)
         ent = _ATOMS[key] = (spec, atoms)
     atoms = ent[1]
-    r = ctx.S.StructureFactor(np.asarray(h), cell, name, atoms, disper)
+    from vfw.props import c04
+    r = ctx.S.StructureFactor(np.asarray(h), cell, c04.spell(name, int(abs(int(h[0])) + 3 * abs(int(h[1])) + len(spec))), atoms, disper)
     for a, at in zip(spec, atoms):
         same = bool(np.array_equal(np.asarray(at.pos, float), np.asarray(a["pos"], float)))
         if a["adp_type"] in ("Uiso", "Uani"):
@@ -127,7 +128,8 @@ def gen_spec(rng, cell, kind, natoms=None):
         elif kind == "Uani":
             adp_type, adp = "Uani", random_uani(rng, cell)
         else:
-            adp_type, adp = None, 0.0
+            # an atom without a displacement type: whatever is left in .adp (readers leave 0.0, a user may leave a number) is not to be used
+            adp_type, adp = None, [0.0, 0.37, 0.05][int(rng.integers(3))]
         spec.append({"label": "%s%d" % (el, i + 1), "el": el, "pos": pos, "adp_type": adp_type, "adp": adp,
                      "occ": float(rng.uniform(0.05, 1.0))})
     return spec
